@@ -1553,6 +1553,43 @@ theorem c05_dec_band_method (srcDec : Nat → ℝ) (δ : ℝ) (K : Nat) (evs : L
   rw [hp k j]
   simp only [C05Crit.inDecBand_iff]
 
+open EvSelCrit in
+/-- **The cap of the RA half width**: the RA distance on the circle never exceeds `π`, so every cap
+`> π` (the code: `2π`) gives the decisions of the model, for the RA band and for the box; a cap of
+exactly `π` does not — the event on the opposite meridian of a source whose band touches a pole
+(distance exactly `π`, strict comparison) is lost. -/
+theorem c05_ra_cap_irrelevant (cap s dec δ e : ℝ) (hc : Real.pi < cap)
+    (hs : 0 ≤ s ∧ s ≤ 2 * Real.pi) (he : 0 ≤ e ∧ e ≤ 2 * Real.pi) :
+    inRABandCap cap s dec δ e = inRABand s dec δ e ∧
+    inBoxRaCap cap s dec δ e = decide (raDistBox s e < dRAhalf dec δ) ∧
+    raDistMod s e ≤ Real.pi ∧ raDistBox s e ≤ Real.pi := by
+  have h : |e - s| ≤ 2 * Real.pi := abs_le.mpr ⟨by linarith [hs.2, he.1], by linarith [hs.1, he.2]⟩
+  exact ⟨C05Crit.inRABandCap_eq cap s dec δ e hc h, C05Crit.inBoxRaCap_eq cap s dec δ e hc,
+    C05Crit.raDistMod_le_pi s e h, C05Crit.raDistBox_le_pi s e⟩
+
+open EvSelCrit in
+theorem c05_ra_cap_pi_counterexample :
+    ¬ ∀ (s dec δ e : ℝ), inBoxRaCap Real.pi s dec δ e = decide (raDistBox s e < dRAhalf dec δ) := by
+  intro h
+  have hpi := Real.pi_pos
+  obtain ⟨h1, h2⟩ := C05Crit.cap_pi_loses_antipode 0 (Real.pi / 2) 1 (by norm_num)
+    ⟨by linarith, le_refl _⟩ (by rw [abs_of_pos (by linarith)]; linarith)
+  rw [h 0 (Real.pi / 2) 1 (0 + Real.pi), h2] at h1
+  exact Bool.noConfusion h1
+
+open EvSelCrit in
+/-- the caps found in the current source are `> π`: the driver's decisions (computed with the
+extracted literals) are those of the model the theorems are about -/
+theorem c05_ra_cap_for_current_source (s dec δ e : ℝ)
+    (hs : 0 ≤ s ∧ s ≤ 2 * Real.pi) (he : 0 ≤ e ∧ e ≤ 2 * Real.pi) :
+    inRABandCap (Gen.C05.raBandCap : ℝ) s dec δ e = inRABand s dec δ e ∧
+    inBoxRaCap (Gen.C05.boxCap : ℝ) s dec δ e = decide (raDistBox s e < dRAhalf dec δ) := by
+  have h1 : Real.pi < (Gen.C05.raBandCap : ℝ) := by
+    have := Real.pi_lt_d2; unfold Gen.C05.raBandCap; norm_num at this ⊢; linarith
+  have h2 : Real.pi < (Gen.C05.boxCap : ℝ) := by
+    have := Real.pi_lt_d2; unfold Gen.C05.boxCap; norm_num at this ⊢; linarith
+  exact ⟨(c05_ra_cap_irrelevant _ s dec δ e h1 hs he).1, (c05_ra_cap_irrelevant _ s dec δ e h2 hs he).2.1⟩
+
 /-! ### the methods as executed, over ℝ (index layer ∘ criterion layer) -/
 
 section realMethods
